@@ -46,8 +46,15 @@ func caseVariants(s string, locked []bool, maxAll int, f func(v string) bool) (i
 		}
 		return n, true
 	}
+	// flips range over all free letters, or over the first and last 24 of them when there are more than 48
+	// (bases of kilobytes exist in the length / count families; k^2 variants of each would never finish)
+	all := pos
+	if k > 48 {
+		pos = append(append([]int{}, all[:24]...), all[k-24:]...)
+		k = len(pos)
+	}
 	for _, upper := range []bool{false, true} {
-		for _, p := range pos {
+		for _, p := range all {
 			if upper {
 				b[p] = s[p] &^ 0x20
 			} else {
